@@ -346,6 +346,10 @@ class ModelBase:
         if name == 'dict':
             if a0 is not None and a0.ty == 'dict':
                 return a0.w(fresh=True, store=None, deps=d)
+            if a0 is not None and a0.ty == 'zip' and len(a0.inners) == 2 and a0.inners[0].ty == 'dict' and a0.inners[0].kw and not a0.inners[0].open_kw \
+                    and a0.inners[0].keyelem is None:
+                # zip(mapping, values): iterating a dict yields its keys in insertion order
+                a0 = a0.w(inners=[AV(ty='tuple', elts=[const(k) for k in a0.inners[0].kw]), a0.inners[1]])
             if a0 is not None and a0.ty == 'zip' and len(a0.inners) == 2 and a0.inners[0].elts is not None and a0.inners[1].elts is not None \
                     and len(a0.inners[0].elts) == len(a0.inners[1].elts) and all(has_const(k) and isinstance(cval(k), str) for k in a0.inners[0].elts):
                 # dict(zip(names, values)) with known names: one entry per name
@@ -562,6 +566,12 @@ class ModelBase:
         if ty == 'zip':
             elts = []
             for x in it.inners:
+                if x.ty == 'count':
+                    # itertools.count() zipped with sequences numbers their items, like enumerate
+                    others = [y for y in it.inners if y.ty != 'count']
+                    zero = x.start is not None and has_const(x.start) and cval(x.start) == 0
+                    elts.append(AV(ty='int', idx=self.enum_index_kind(AV(ty='zip', inners=others)) if (zero and others) else None))
+                    continue
                 el = self.iter_item(interp, st, x, node, stmt)
                 sh = x.shifted
                 # zip(e[:-1], e[1:]): consecutive pairs of one sequence
